@@ -129,6 +129,7 @@ class Model(object):
                 good.append(('let', a, b))
         good.append(('letchar', NAMES[0], 'c'))
         good.append(('letchar', NAMES[0], 'd'))
+        good.append(('letchar', NAMES[1], 'e'))     # a second alias name: aliases of different names in different frames
         for c in CHARS:
             for code in CODES:
                 if top.code(c) != code:
@@ -286,8 +287,9 @@ class Impl(object):
         out = []
         for n in NAMES + ('zzL',):
             out.append(self._vid(ctx[n]) if n in ctx else None)
-        t = ctx.get_let(EscapeSequence(NAMES[0]))
-        out.append(str(t) if not isinstance(t, EscapeSequence) else None)
+        for n in NAMES:
+            t = ctx.get_let(EscapeSequence(n))
+            out.append(str(t) if not isinstance(t, EscapeSequence) else None)
         out.append(tuple(int(ctx.whichCode(c)) for c in WATCH))
         out.append(ctx.depth)
         out.append(len(ctx.contexts))
@@ -300,7 +302,8 @@ def model_views(m):
     out = []
     for n in NAMES + ('zzL',):
         out.append(m.lookup(n))
-    out.append(m.getlet(NAMES[0]))
+    for n in NAMES:
+        out.append(m.getlet(n))
     out.append(tuple(m.top().code(c) for c in WATCH))
     out.append(len(m.frames))
     out.append(len(m.frames))
